@@ -83,6 +83,12 @@ func (fr *Frame) callWith(st *State, c *ssa.CallCommon, in ssa.Instruction, args
 		if pureIface(key) {
 			return fr.freshResults(st, sig, "inv."+c.Method.Name())
 		}
+		if isKeeperIface(recvT) {
+			// expected-keeper interfaces work on the KV store (the ghost world), not on Go memory of the caller
+			ex.note("keeper interface method without contract: store (world) havocked, Go heap kept: %s", key)
+			st.world = ex.f.Fresh("world", SInt)
+			return fr.freshResults(st, sig, "inv."+c.Method.Name())
+		}
 		ex.havocAll(st, "invoke "+key)
 		return fr.freshResults(st, sig, "inv."+c.Method.Name())
 	}
@@ -111,6 +117,14 @@ func (ex *Exec) resolveClosure(t *Term) *closureInfo {
 		return ci
 	}
 	return nil
+}
+
+func isKeeperIface(t types.Type) bool {
+	n, ok := types.Unalias(t).(*types.Named)
+	if !ok || n.Obj().Pkg() == nil {
+		return false
+	}
+	return strings.HasPrefix(n.Obj().Pkg().Path(), lavaMod) && strings.HasSuffix(n.Obj().Name(), "Keeper")
 }
 
 func ifaceKey(t types.Type, method string) string {
@@ -150,16 +164,80 @@ func (fr *Frame) callStatic(st *State, callee *ssa.Function, bindings []*Term, c
 		return fr.applyContract(st, ct, callee, c, in, args, sig, false)
 	}
 	if isPureExternal(name) {
-		return fr.freshResults(st, sig, sanitize(callee.Name()))
+		return fr.pureExternal(st, name, callee, sig, args)
 	}
 	if len(callee.Blocks) > 0 && fr.depth < ex.maxInline && !ex.onStack(callee) && ex.inlinable(callee, ct) {
 		return fr.inline(st, callee, bindings, args, sig)
+	}
+	if len(callee.Blocks) == 0 {
+		if res, ok := fr.protoGetter(st, callee, args); ok {
+			return res
+		}
 	}
 	if len(callee.Blocks) == 0 && callee.Synthetic != "" {
 		ex.note("synthetic function without body: %s", name)
 	}
 	ex.havocAll(st, "call "+name)
 	return fr.freshResults(st, sig, sanitize(callee.Name()))
+}
+
+// pureExternal: a dependency function assumed to have no effect on modelled state. When every argument
+// is a plain value (no pointers, slices, maps or interfaces) its results are a function of the arguments,
+// otherwise they are unconstrained.
+func (fr *Frame) pureExternal(st *State, name string, callee *ssa.Function, sig *types.Signature, args []*Term) []*Term {
+	ex := fr.ex
+	nondet := strings.HasPrefix(name, "time.Now") || strings.HasPrefix(name, "time.Since") || strings.Contains(name, "rand.")
+	valueLike := !nondet
+	pts := sigParamTypes(callee.Signature)
+	for _, t := range pts {
+		if !ex.valueLike(t) {
+			valueLike = false
+		}
+	}
+	if !valueLike || len(args) != len(pts) {
+		return fr.freshResults(st, sig, sanitize(callee.Name()))
+	}
+	res := make([]*Term, sig.Results().Len())
+	for i := range res {
+		rt := sig.Results().At(i).Type()
+		res[i] = ex.f.App(fmt.Sprintf("ext.%s.r%d", sanitize(name), i), ex.tm.SortOf(rt), args...)
+		ex.typedFacts(st, res[i], rt)
+	}
+	return res
+}
+
+// sigParamTypes: receiver (if any) followed by the parameter types (available without a function body).
+func sigParamTypes(sig *types.Signature) []types.Type {
+	var out []types.Type
+	if sig.Recv() != nil {
+		out = append(out, sig.Recv().Type())
+	}
+	for i := 0; i < sig.Params().Len(); i++ {
+		out = append(out, sig.Params().At(i).Type())
+	}
+	return out
+}
+
+func (ex *Exec) valueLike(t types.Type) bool {
+	t = types.Unalias(t)
+	if _, ok := ex.tm.special[typeFullName(t)]; ok {
+		return true
+	}
+	switch u := t.Underlying().(type) {
+	case *types.Basic:
+		return u.Kind() != types.UnsafePointer
+	case *types.Struct:
+		if ex.tm.IsOpaque(t) {
+			return true
+		}
+		for i := 0; i < u.NumFields(); i++ {
+			if !ex.valueLike(u.Field(i).Type()) {
+				return false
+			}
+		}
+		return true
+	}
+	return false
 }
 
 func (ex *Exec) onStack(fn *ssa.Function) bool {
@@ -529,10 +607,22 @@ func (fr *Frame) modifiedInLoop(li *loopInfo) ([]string, bool) {
 			for _, in := range b.Instrs {
 				switch x := in.(type) {
 				case *ssa.Store:
+					if root := localRoot(x.Addr); root != nil {
+						if fn == fr.fn {
+							set["L."+fr.localName(root)] = true
+						}
+						continue
+					}
 					for _, c := range addrComp(x.Addr) {
 						set[c] = true
 					}
 				case *ssa.Alloc:
+					if !x.Heap {
+						if fn == fr.fn {
+							set["L."+fr.localName(x)] = true
+						}
+						continue
+					}
 					et := x.Type().Underlying().(*types.Pointer).Elem()
 					for _, c := range ex.compsOfType(et) {
 						set[c] = true
@@ -713,6 +803,28 @@ func (ex *Exec) staticComps(v ssa.Value) []string {
 	return out
 }
 
+// localRoot: the non-escaping Alloc an address is derived from (through FieldAddr/IndexAddr), if any.
+func localRoot(v ssa.Value) *ssa.Alloc {
+	for {
+		switch x := v.(type) {
+		case *ssa.Alloc:
+			if !x.Heap {
+				return x
+			}
+			return nil
+		case *ssa.FieldAddr:
+			v = x.X
+		case *ssa.IndexAddr:
+			if _, isPtr := types.Unalias(x.X.Type()).Underlying().(*types.Pointer); !isPtr {
+				return nil
+			}
+			v = x.X
+		default:
+			return nil
+		}
+	}
+}
+
 func isInteriorSSA(v ssa.Value) bool {
 	switch v.(type) {
 	case *ssa.FieldAddr, *ssa.IndexAddr:
@@ -840,4 +952,33 @@ func (fr *Frame) backEdgeOrd(li *loopInfo, from *ssa.BasicBlock) int {
 		}
 	}
 	return n
+}
+
+// protoGetter models generated protobuf getters of lava types whose package is loaded without bodies:
+// func (m *T) GetX() F { if m != nil { return m.X }; return zero }.
+func (fr *Frame) protoGetter(st *State, callee *ssa.Function, args []*Term) ([]*Term, bool) {
+	ex := fr.ex
+	f := ex.f
+	name := callee.Name()
+	if !strings.HasPrefix(name, "Get") || len(args) != 1 || callee.Signature.Recv() == nil || callee.Signature.Results().Len() != 1 {
+		return nil, false
+	}
+	pt, ok := types.Unalias(callee.Signature.Recv().Type()).Underlying().(*types.Pointer)
+	if !ok {
+		return nil, false
+	}
+	dt, s, ok := ex.tm.StructOf(pt.Elem())
+	if !ok {
+		return nil, false
+	}
+	field := strings.TrimPrefix(name, "Get")
+	for i := 0; i < s.NumFields(); i++ {
+		if s.Field(i).Name() == field && types.Identical(s.Field(i).Type(), callee.Signature.Results().At(0).Type()) {
+			ex.trustedUsed["lib:generated protobuf getter pattern (*T).GetX() == (m != nil ? m.X : zero): "+callee.String()] = true
+			v := ex.load(st, ex.faddr(args[0], dt, fieldName(s, i)), s.Field(i).Type())
+			ex.assume(st, f.Implies(f.Neq(args[0], f.Int(0)), ex.tm.WellTyped(v, s.Field(i).Type(), 1)))
+			return []*Term{f.Ite(f.Neq(args[0], f.Int(0)), v, ex.tm.Zero(s.Field(i).Type()))}, true
+		}
+	}
+	return nil, false
 }
